@@ -29,6 +29,12 @@ TEXT = {
          "configurations behind). Known finding S5 is matched by its signature only.", "6 C09, 12.4"),
  "C16": ("The scenario driver establishes and maintains a healthy leader (prompt automatic network among a majority, free timers there) after a random prelude, while the adversary owns every "
          "other node's links, timer, crashes and restarts; the monitor requires the leader to keep leading and no term of the majority to grow while the period lasts.", "6 C16"),
+ "C10": ("Every snapshot published on any node (taken locally or installed) is compared by TLC with the operations applied up to its label (none later, none missing, in order) and with the configuration "
+         "committed at the label; every restored state and every Apply is checked for double or skipped application. Scenarios: automatic and scheduler-triggered snapshots, gated Snapshot / Apply / "
+         "Restore calls, crashes after publication, payloads from tens of bytes to several transfer chunks, lagging followers.", "6 C10"),
+ "C11": ("After every log operation the real log's last index and size are compared with the log the operations denote; discards must not drop committed entries; commit and applied index never move "
+         "backwards within an incarnation; no snapshot older than the applied index is restored; an installed snapshot equals, byte for byte (hash, size, label), a snapshot some node produced. "
+         "Scenarios as C10 with stale, duplicated and reordered chunks.", "6 C11"),
  "C12": ("LogStore.tla models the log file at system-call grain (two writes per record, fsync, ftruncate, temp file + rename) with a crash between any two calls and inside a write; "
          "TLC checks Recover/InMemoryIsReturned/FileDenotesLog exhaustively. On the code, operation programs run through the public Log API in a driver process that is killed by a real "
          "SIGKILL on entry to every storage system call (strace fault injection), plus byte prefixes of interrupted appends; every image is reopened, extended and reopened again and the "
